@@ -301,6 +301,79 @@ def section_covariance():
                     fail("covariance", "result for a direct sum is not the direct sum of the results", layout=li, output=NAMES[s], order=k)
 
 
+def section_covariance_implicit():
+    """C15 in implicit mode (direct solver): permuting the explicit eigenvectors permutes the explicit blocks; conjugation; shift; direct sum."""
+    global cases
+    rng = np.random.default_rng(77)
+    N = 3
+
+    def dense_of(x, shape):
+        if x is zero:
+            return np.zeros(shape, dtype=complex)
+        if hasattr(x, "matmat") and not isinstance(x, np.ndarray) and not sparse.issparse(x):
+            return np.asarray(x @ np.eye(x.shape[1], dtype=complex))
+        return dense(x, shape)
+
+    def system(n, seed, cplx):
+        r = np.random.default_rng(seed)
+        d = np.sort(r.normal(size=n)) * 2 + np.arange(n)
+        off = r.normal(size=n - 1) * 0.3
+        H0 = np.diag(d) + np.diag(off, 1) + np.diag(off, -1)
+        M = r.normal(size=(n, n)) + (1j * r.normal(size=(n, n)) if cplx else 0)
+        H1 = (M + M.conj().T) / 2
+        return H0.astype(complex if cplx else float), H1
+
+    for cplx in (False, True):
+        n, k = 9, 3
+        H0, H1 = system(n, 5 + int(cplx), cplx)
+        w, v = np.linalg.eigh(H0)
+        vA = v[:, :k]
+        ham = [sparse.csr_array(H0), sparse.csr_array(H1)]
+        base = block_diagonalize(ham, subspace_eigenvectors=[vA])
+        shapes = {(0, 0): (k, k), (0, 1): (k, n), (1, 0): (n, k)}
+        ref = {(s, b, o): dense_of(base[s][b + (o,)], shapes[b]) for s in range(3) for b in shapes for o in range(N + 1)}
+        # permutation of the explicit eigenvectors (levels no longer listed in ascending energy order)
+        for perm in ([2, 0, 1], [1, 2, 0], [2, 1, 0]):
+            cases += 1
+            Pm = np.eye(k)[:, perm]
+            oth = block_diagonalize(ham, subspace_eigenvectors=[vA[:, perm]])
+            for s in range(3):
+                for o in range(N + 1):
+                    for b, tr in (((0, 0), lambda m: Pm.T @ m @ Pm), ((0, 1), lambda m: Pm.T @ m), ((1, 0), lambda m: m @ Pm)):
+                        got = dense_of(oth[s][b + (o,)], shapes[b])
+                        if not close(got, tr(ref[(s, b, o)]), 1e-8):
+                            fail("covariance", "implicit mode: permuting the explicit eigenvectors does not permute the result", perm=perm, output=NAMES[s], block=b, order=o,
+                                 cplx=cplx, err=float(np.abs(got - tr(ref[(s, b, o)])).max()))
+        # shift of H_0 by a multiple of the identity
+        cases += 1
+        oth = block_diagonalize([sparse.csr_array(H0 + 2.5 * np.eye(n)), ham[1]], subspace_eigenvectors=[vA])
+        for s in range(3):
+            for o in range(N + 1):
+                want = ref[(s, (0, 0), o)] + (2.5 * np.eye(k) if (s == 0 and o == 0) else 0)
+                if not close(dense_of(oth[s][(0, 0, o)], (k, k)), want, 1e-8):
+                    fail("covariance", "implicit mode: adding a multiple of the identity to H_0 does more than shift H_tilde at order zero", output=NAMES[s], order=o, cplx=cplx)
+        # direct sum of two decoupled systems: explicit levels of the two summands interleave in energy
+        cases += 1
+        H0b, H1b = system(7, 31 + int(cplx), cplx)
+        H0b = H0b + 0.37 * np.eye(7)
+        wb, vb = np.linalg.eigh(H0b)
+        kb = 2
+        baseb = block_diagonalize([sparse.csr_array(H0b), sparse.csr_array(H1b)], subspace_eigenvectors=[vb[:, :kb]])
+        Z = lambda a, b: np.zeros((a, b))  # noqa: E731
+        H0s = np.block([[H0, Z(n, 7)], [Z(7, n), H0b]])
+        H1s = np.block([[H1, Z(n, 7)], [Z(7, n), H1b]])
+        vs = np.block([[vA, Z(n, kb)], [Z(7, k), vb[:, :kb]]])
+        oth = block_diagonalize([sparse.csr_array(H0s), sparse.csr_array(H1s)], subspace_eigenvectors=[vs])
+        for s in range(3):
+            for o in range(N + 1):
+                want = np.zeros((k + kb, k + kb), dtype=complex)
+                want[:k, :k] = ref[(s, (0, 0), o)]
+                want[k:, k:] = dense_of(baseb[s][(0, 0, o)], (kb, kb))
+                got = dense_of(oth[s][(0, 0, o)], (k + kb, k + kb))
+                if not close(got, want, 1e-8):
+                    fail("covariance", "implicit mode: result for a direct sum is not the direct sum of the results", output=NAMES[s], order=o, cplx=cplx, err=float(np.abs(got - want).max()))
+
+
 def herm_rand(rng, n, cplx=True):
     m = rng.integers(-3, 4, size=(n, n)).astype(complex)
     if cplx:
@@ -395,6 +468,38 @@ def section_formats():
             for o in ords:
                 if not close(full(pb.idx, got[s], o), ref[(s, o)]):
                     fail("formats", "passing an eigenbasis is not equivalent to rotating the Hamiltonian into it", layout=li, output=NAMES[s], order=o)
+    # 1b. the same for hermitian=False with genuinely non-Hermitian perturbations (format equivalence does not depend on the algorithm being exact):
+    #     nested block lists (as list and as dict with order tuples), block-shaped BlockSeries, sparse values
+    for li, (E, sub) in enumerate((([0.0, 0.0, 2.0, 2.0], [0, 0, 1, 1]), ([1.0, 1.0, 1.0, 4.0, 4.0], [0, 0, 0, 1, 1]), ([0.0, 3.0, 3.0, -2.0], [0, 1, 1, 2]))):
+        pb = Problem(E, sub, nparam=2, hermitian=False, seed=170 + li)
+        H0, H1, H2 = np.diag(pb.E).astype(complex), pb.terms[(1, 0)], pb.terms[(0, 1)]
+        base = block_diagonalize([H0, H1, H2], subspace_indices=sub, hermitian=False)
+        ords = orders_upto(2, N)
+        ref = {(s, o): full(pb.idx, base[s], o) for s in range(3) for o in ords}
+        nb = pb.nb
+        blk = lambda M: [[M[np.ix_(pb.idx[i], pb.idx[j])] for j in range(nb)] for i in range(nb)]  # noqa: E731
+        blk0 = [[H0[np.ix_(pb.idx[i], pb.idx[j])] if i == j else zero for j in range(nb)] for i in range(nb)]
+        sp = sparse.csr_array
+        variants = {
+            "nh/nested-lists": ([blk(H0), blk(H1), blk(H2)], {}),
+            "nh/nested-lists-dict": ({(0, 0): blk(H0), (1, 0): blk(H1), (0, 1): blk(H2)}, {}),
+            "nh/list-sparse": ([sp(H0), sp(H1), sp(H2)], {"subspace_indices": sub}),
+            "nh/dict-tuples": ({(0, 1): H2, (0, 0): H0, (1, 0): H1}, {"subspace_indices": sub}),
+            "nh/BlockSeries-blocks": (BlockSeries(data={(i, j) + o: (blk0 if o == (0, 0) else blk(M))[i][j] for o, M in (((0, 0), H0), ((1, 0), H1), ((0, 1), H2))
+                                                          for i in range(nb) for j in range(nb)}, shape=(nb, nb), n_infinite=2), {}),
+        }
+        for nm, (ham, extra) in variants.items():
+            cases += 1
+            try:
+                got = block_diagonalize(ham, hermitian=False, **extra)
+                for s in range(3):
+                    for o in ords:
+                        g = full(pb.idx, got[s], o)
+                        if not close(g, ref[(s, o)]):
+                            fail("formats", "input format changes the result (hermitian=False, non-Hermitian perturbation)", variant=nm, layout=li, output=NAMES[s], order=o,
+                                 err=float(np.abs(g - ref[(s, o)]).max()))
+            except Exception as e:
+                fail("formats", "supported input format raised (hermitian=False)", variant=nm, layout=li, error=repr(e)[:300])
     # 3. operator_to_BlockSeries returns exactly L_i^dagger A R_j (unitary and biorthogonal), incl. long interleaved labels
     for n, nb, seed in ((6, 2, 1), (11, 3, 2), (24, 3, 3), (48, 4, 4)):
         cases += 1
@@ -558,7 +663,7 @@ if __name__ == "__main__":
             fn = globals().get("section_" + name)
             if fn is None:
                 continue
-            if off and name in ("implicit",):
+            if off and name in ("implicit", "covariance_implicit"):
                 continue
             try:
                 fn()
